@@ -109,7 +109,14 @@ fn main() {
         big3.a1 = 0; // group sum 2^32-1 -> accept
         let mut dupn = rb.clone();
         dupn.nullifier = ra.nullifier;
-        for pair in [[big1.clone(), big2], [big1.clone(), big3], [ra.clone(), dupn], [dz.clone(), dz.clone()], [dz.clone(), ra.clone()]] {
+        // nullifiers whose limbs have a +p alias (values < 2^32-1): the sort must not be steerable
+        let mut sm1 = ra.clone();
+        sm1.nullifier = [0, 0, 0, 1];
+        let mut sm2 = rb.clone();
+        sm2.nullifier = [0, 0, 0, 0];
+        let mut sm3 = rb.clone();
+        sm3.nullifier = [TWO32 - 2, 5, 0, 7];
+        for pair in [[big1.clone(), big2], [big1.clone(), big3], [ra.clone(), dupn], [dz.clone(), dz.clone()], [dz.clone(), ra.clone()], [sm1.clone(), sm2.clone()], [sm2, sm3.clone()], [sm3, sm1]] {
             let mut v: Vec<Slot> = pair.to_vec();
             while v.len() < n {
                 v.push(dz.clone());
